@@ -462,7 +462,7 @@ func directedCases(s *idlgen.Schema, sidx int) []directedCase {
 				directedCase{v, black, root(fieldKid(1, "l", true, after(idxNode(leafNode(), 0))))},
 				directedCase{v, black, root(fieldKid(5, "li", true, star('i', after(&mnode{kids: []*mkid{fieldKid(3, "z", true, leafNode())}}))))},
 				directedCase{v, black, root(fieldKid(4, "ms", true, keys('s', after(&mnode{kids: []*mkid{fieldKid(1, "x", true, leafNode())}}), nil, []string{"k"})))},
-				directedCase{v, black, root(fieldKid(8, "oi", false, after(&mnode{kids: []*mkid{fieldKid(2, "y", true, leafNode())}})))},
+				directedCase{v, black, root(fieldKid(8, "oi", true, after(&mnode{kids: []*mkid{fieldKid(2, "y", true, leafNode())}})))},
 				directedCase{v, black, root(fieldKid(3, "mi", true, after(keys('k', leafNode(), []int64{0}, nil))), fieldKid(13, "n", true, leafNode()))},
 			)
 		}
